@@ -152,3 +152,211 @@ Proof.
   split; [|split; apply Hn].
   intros k. split; apply Hf; auto. intros x. symmetry. apply Hs.
 Qed.
+
+(* ================================================================================================================
+   The token's own scope.  Every release point hands the scope of the PRESENTED (or minted) token to get_claims; the
+   scope of the grant the token belongs to does not enter.  A token whose scope is narrower never releases more. *)
+
+(* with an explicit token scope the grant's scope is irrelevant *)
+Theorem grant_scope_irrelevant pm m cl point sec ts gs1 gs2 req ui :
+  release_tok pm m cl point sec (Some ts) gs1 req ui = release_tok pm m cl point sec (Some ts) gs2 req ui.
+Proof. reflexivity. Qed.
+(* only a caller that hands in no scope at all gets the grant's *)
+Theorem no_token_scope_is_grant_scope pm m cl point sec gs req ui :
+  release_tok pm m cl point sec None gs req ui = release_tok pm m cl point sec (Some gs) gs req ui.
+Proof. reflexivity. Qed.
+
+(* everything released for a token with scope ts: permitted by base / always-add / the client's always-add / a claim
+   mapped from a scope OF THE TOKEN (allowed for the client) / the claims request; the user's own non-null value *)
+Theorem token_scope_bound pm m cl point sec ts gs req ui k v :
+  In (k, v) (release_tok pm m cl point sec (Some ts) gs req ui) ->
+  (In k (keys m.(m_base))
+   \/ In k (always_keys m.(m_always))
+   \/ (exists c, cl = Some c /\ m.(m_per_client) = true /\ In k (snd (client_claims m c point sec)))
+   \/ (scope_claim pm cl ts k /\
+       exists s, In s ts /\ In s (match (match cl with Some c => c.(c_allowed_scopes) | None => None end) with
+                                  | Some a => a | None => List.map fst pm end))
+   \/ In k (keys req))
+  /\ assoc k ui = Some v /\ v <> VNone.
+Proof.
+  unfold release_tok, get_claims_tok, effective_scopes. intros H.
+  apply released_bound in H as (spec & Hin & Hu & _ & Hn). split; [|auto].
+  assert (Hk : In k (keys (get_claims pm m cl point sec ts req))).
+  { unfold keys. apply in_map_iff. exists (k, spec). auto. }
+  apply restriction_sources in Hk as [Hk|[Hk|[Hk|[Hk|Hk]]]]; auto 6.
+  right; right; right; left. split; auto. unfold scope_claim in Hk.
+  now apply scope_claim_from_allowed_scope in Hk.
+Qed.
+
+(* ---- dictionaries: entries, unique keys ---- *)
+Lemma aset_entries {V} k (v : V) d e : In e (aset k v d) -> e = (k, v) \/ In e d.
+Proof.
+  induction d as [|[k' v'] r IH]; cbn.
+  - intros [H|[]]; auto.
+  - destruct (str_eqb k k') eqn:E; cbn.
+    + apply str_eqb_eq in E. subst k'. intros [H|H]; auto.
+    + intros [H|H]; auto. destruct (IH H); auto.
+Qed.
+Lemma update_entries u : forall d e, In e (update d u) -> In e d \/ In e u.
+Proof.
+  induction u as [|[k v] r IH]; intros d e H; cbn in *; auto.
+  destruct (IH _ _ H) as [H1|H1]; auto. destruct (aset_entries _ _ _ _ H1) as [->|H2]; auto.
+Qed.
+Lemma aset_NoDup {V} k (v : V) d : NoDup (keys d) -> NoDup (keys (aset k v d)).
+Proof.
+  induction d as [|[k' v'] r IH]; cbn; intros H.
+  - constructor; [intros []|constructor].
+  - destruct (str_eqb k k') eqn:E; cbn; auto.
+    inversion H as [|? ? Hn Hr]; subst. constructor; auto.
+    intros Hin. apply aset_keys in Hin as [->|Hin]; auto.
+    rewrite str_eqb_refl in E. discriminate.
+Qed.
+Lemma update_NoDup u : forall d, NoDup (keys d) -> NoDup (keys (update d u)).
+Proof. induction u as [|[k v] r IH]; intros d H; cbn; auto. apply IH. now apply aset_NoDup. Qed.
+Lemma In_assoc {V} k (s : V) d : NoDup (keys d) -> In (k, s) d -> assoc k d = Some s.
+Proof.
+  induction d as [|[k' v'] r IH]; cbn; intros Hn H; [destruct H|]. destruct H as [H|H].
+  - inversion H; subst. now rewrite str_eqb_refl.
+  - inversion Hn as [|? ? Hx Hr]; subst.
+    destruct (str_eqb k k') eqn:E; auto.
+    apply str_eqb_eq in E. subst k'. exfalso. apply Hx. unfold keys. apply in_map_iff. exists (k, s). auto.
+Qed.
+Lemma assoc_In {V} k (s : V) d : assoc k d = Some s -> In (k, s) d.
+Proof.
+  induction d as [|[k' v'] r IH]; cbn; [discriminate|].
+  destruct (str_eqb k k') eqn:E; auto. apply str_eqb_eq in E. subst k'. intros H. inversion H. auto.
+Qed.
+
+(* dict.update with a dictionary whose values are all null *)
+Definition null_entries (u : restriction) : Prop := forall k v, In (k, v) u -> v = None.
+Lemma assoc_update_null u : null_entries u -> forall d k,
+  assoc k (update d u) = if str_in k (keys u) then Some None else assoc k d.
+Proof.
+  induction u as [|[k0 v0] r IH]; intros Hu d k; [reflexivity|].
+  assert (v0 = None) as -> by (apply (Hu k0); now left).
+  change (update d ((k0, None) :: r)) with (update (aset k0 None d) r).
+  change (keys ((k0, @None (list spec_item)) :: r)) with (k0 :: keys r).
+  rewrite IH by (intros k' v' Hin; apply (Hu k'); now right). cbn [str_in].
+  destruct (str_eqb k k0) eqn:E; cbn [orb].
+  - apply str_eqb_eq in E. subst k0. destruct (str_in k (keys r)); auto. apply assoc_aset_same.
+  - apply str_eqb_neq in E. destruct (str_in k (keys r)); auto. apply assoc_aset_other. congruence.
+Qed.
+Lemma scopes_to_claims_null pm allowed cmap s : null_entries (scopes_to_claims pm allowed cmap s).
+Proof.
+  unfold scopes_to_claims, convert_scopes2claims. intros k v H.
+  apply update_entries in H as [[]|H]. apply in_flat_map in H as (sc & _ & H).
+  destruct (assoc sc _); [|destruct H]. apply in_map_iff in H as (c & E & _). now inversion E.
+Qed.
+Lemma scopes_to_claims_mono pm allowed cmap s1 s2 :
+  (forall x, In x s1 -> In x s2) ->
+  forall k, In k (keys (scopes_to_claims pm allowed cmap s1)) -> In k (keys (scopes_to_claims pm allowed cmap s2)).
+Proof.
+  intros Hs k. unfold scopes_to_claims, convert_scopes2claims. intros H.
+  apply update_keys in H as [[]|H]. apply update_keys_rev. right.
+  apply keys_flat_map in H as (s & Hin & Hk). apply keys_flat_map. exists s. split; auto.
+  unfold filter_scopes in *. apply filter_In in Hin as [H1 H2]. apply filter_In. split; auto.
+Qed.
+
+(* d2 permits whatever d1 permits: every claim of d1 is in d2 with the same or the null ("anything") specification *)
+Definition permits_more (d1 d2 : restriction) : Prop :=
+  forall k s1, assoc k d1 = Some s1 -> exists s2, assoc k d2 = Some s2 /\ (s2 = s1 \/ s2 = None).
+Lemma permits_more_refl d : permits_more d d.
+Proof. intros k s H. eauto. Qed.
+Lemma permits_more_aset k v d1 d2 : permits_more d1 d2 -> permits_more (aset k v d1) (aset k v d2).
+Proof.
+  intros H x s1. destruct (str_eqb k x) eqn:E.
+  - apply str_eqb_eq in E. subst x. rewrite !assoc_aset_same. intros H1. eauto.
+  - apply str_eqb_neq in E. rewrite !assoc_aset_other by auto. apply H.
+Qed.
+Lemma permits_more_update u : forall d1 d2, permits_more d1 d2 -> permits_more (update d1 u) (update d2 u).
+Proof. induction u as [|[k v] r IH]; intros d1 d2 H; cbn; auto. apply IH. now apply permits_more_aset. Qed.
+Lemma permits_more_scopes pm allowed cmap s1 s2 d :
+  (forall x, In x s1 -> In x s2) ->
+  permits_more (update d (scopes_to_claims pm allowed cmap s1)) (update d (scopes_to_claims pm allowed cmap s2)).
+Proof.
+  intros Hs k sp. rewrite !assoc_update_null by apply scopes_to_claims_null.
+  destruct (str_in k (keys (scopes_to_claims pm allowed cmap s1))) eqn:E1.
+  - apply str_in_In in E1. apply (scopes_to_claims_mono _ _ _ _ _ Hs) in E1. apply str_in_In in E1. rewrite E1.
+    intros H. eauto.
+  - intros H. destruct (str_in k (keys (scopes_to_claims pm allowed cmap s2))); eauto.
+Qed.
+
+Lemma user_claims_intro ui r k v spec :
+  In (k, spec) r -> assoc k ui = Some v -> claims_match (Some v) spec = true -> In (k, v) (user_claims ui r).
+Proof.
+  intros Hin Hu Hm. unfold user_claims. apply in_flat_map. exists (k, spec). split; auto. cbn [fst snd].
+  rewrite Hu, Hm. now left.
+Qed.
+Lemma claims_match_null_spec v : v <> VNone -> claims_match (Some v) None = true.
+Proof. destruct v; intros H; try reflexivity. congruence. Qed.
+Lemma user_claims_mono ui r1 r2 k v :
+  NoDup (keys r1) -> permits_more r1 r2 -> In (k, v) (user_claims ui r1) -> In (k, v) (user_claims ui r2).
+Proof.
+  intros Hn Hp H. apply released_bound in H as (spec & Hin & Hu & Hm & Hv).
+  apply In_assoc in Hin; auto. apply Hp in Hin as (s2 & H2 & [->| ->]).
+  - apply assoc_In in H2. eapply user_claims_intro; eauto.
+  - apply assoc_In in H2. eapply user_claims_intro; eauto. now apply claims_match_null_spec.
+Qed.
+
+(* the restriction, written as three dict.update steps *)
+Definition policy (m : module_cfg) (cl : option client_cfg) (point sec : pystr) : bool * option always_cfg :=
+  match cl with
+  | Some c => if m.(m_per_client) then let '(b, a) := client_claims m c point sec in (b, Some (AList a))
+              else (m.(m_by_scope), m.(m_always))
+  | None => (m.(m_by_scope), m.(m_always))
+  end.
+Definition with_always (m : module_cfg) (always : option always_cfg) : restriction :=
+  match always with
+  | Some (AList l) => update m.(m_base) (List.map (fun k => (k, @None (list spec_item))) l)
+  | Some (ADict d) => update m.(m_base) d
+  | None => m.(m_base)
+  end.
+Definition client_scopes_to_claims (pm : scope_map) (cl : option client_cfg) (scopes : list pystr) : restriction :=
+  scopes_to_claims pm (match cl with Some c => c.(c_allowed_scopes) | None => None end)
+                   (match cl with Some c => c.(c_scope_map) | None => None end) scopes.
+Lemma get_claims_steps pm m cl point sec scopes req :
+  get_claims pm m cl point sec scopes req =
+  update (if fst (policy m cl point sec)
+          then update (with_always m (snd (policy m cl point sec))) (client_scopes_to_claims pm cl scopes)
+          else with_always m (snd (policy m cl point sec))) req.
+Proof.
+  unfold get_claims. fold (policy m cl point sec). destruct (policy m cl point sec) as [b a]. cbn [fst snd].
+  unfold client_scopes_to_claims, with_always.
+  destruct a as [[[|? ?]|[|? ?]]|]; destruct b; destruct scopes; destruct req; reflexivity.
+Qed.
+Lemma with_always_NoDup m a : NoDup (keys m.(m_base)) -> NoDup (keys (with_always m a)).
+Proof. intros H. destruct a as [[l|d]|]; cbn; auto; now apply update_NoDup. Qed.
+Lemma get_claims_NoDup pm m cl point sec scopes req :
+  NoDup (keys m.(m_base)) -> NoDup (keys (get_claims pm m cl point sec scopes req)).
+Proof.
+  intros H. rewrite get_claims_steps. apply update_NoDup.
+  destruct (fst (policy m cl point sec)); [apply update_NoDup|]; now apply with_always_NoDup.
+Qed.
+
+(* a narrower token scope permits no more ... *)
+Theorem restriction_monotone_in_token_scope pm m cl point sec ts1 ts2 req :
+  (forall s, In s ts1 -> In s ts2) ->
+  permits_more (get_claims pm m cl point sec ts1 req) (get_claims pm m cl point sec ts2 req).
+Proof.
+  intros Hs. rewrite !get_claims_steps. apply permits_more_update.
+  destruct (fst (policy m cl point sec)); [|apply permits_more_refl].
+  unfold client_scopes_to_claims. now apply permits_more_scopes.
+Qed.
+(* ... and releases no more (base_claims is a Python dict: its keys are unique) *)
+Theorem narrower_token_never_more pm m cl point sec ts1 ts2 gs1 gs2 req ui k v :
+  NoDup (keys m.(m_base)) ->
+  (forall s, In s ts1 -> In s ts2) ->
+  In (k, v) (release_tok pm m cl point sec (Some ts1) gs1 req ui) ->
+  In (k, v) (release_tok pm m cl point sec (Some ts2) gs2 req ui).
+Proof.
+  unfold release_tok, get_claims_tok, effective_scopes. intros Hn Hs.
+  apply user_claims_mono; [now apply get_claims_NoDup|now apply restriction_monotone_in_token_scope].
+Qed.
+(* in particular a down-scoped token (scope within the grant's) releases nothing that a token carrying the whole scope
+   of the grant would not release *)
+Corollary downscoped_within_grant pm m cl point sec ts gs req ui k v :
+  NoDup (keys m.(m_base)) ->
+  (forall s, In s ts -> In s gs) ->
+  In (k, v) (release_tok pm m cl point sec (Some ts) gs req ui) ->
+  In (k, v) (release_tok pm m cl point sec None gs req ui).
+Proof. intros Hn Hs. rewrite no_token_scope_is_grant_scope. now apply narrower_token_never_more. Qed.
